@@ -186,12 +186,43 @@ def _body_items(body, names, depth):
     return items
 
 
-def conv_chain_lean(conv_src):
+def _inline_range_helper(blk, sources):
+    """the integer block may delegate its checks to a helper called with `from` (e.g. detail::check_xyz<T_To>(from);):
+    return the helper's body with its parameter renamed to `from`, or None"""
+    for m in re.finditer(r"\b((?:\w+::)*)(\w+)\s*(?:<[^;(){}]*>)?\s*\(\s*from\s*\)\s*;", blk):
+        name = m.group(2)
+        if name in ("static_cast", "RLBOX_UNUSED", "sizeof"):
+            continue
+        for src in sources:
+            src = _strip_line_comments(re.sub(r"/\*.*?\*/", "", src, flags=re.S))
+            for d in re.finditer(r"\b" + re.escape(name) + r"\s*\(([^()]*)\)\s*(?:noexcept\s*)?\{", src):
+                params = d.group(1)
+                pm = re.search(r"(\w+)\s*$", params.strip())
+                if not pm or "," in params:
+                    continue
+                b0 = d.end() - 1
+                b1 = _match_brace(src, b0)
+                body = src[b0 + 1:b1]
+                if "if constexpr" not in body and "if_constexpr_named" not in body:
+                    continue
+                if pm.group(1) != "from":
+                    body = re.sub(r"\b" + re.escape(pm.group(1)) + r"\b", "from", body)
+                return body
+    return None
+
+
+def conv_chain_lean(conv_src, other_sources=()):
     """Lean term of type `Rlbox.ConvChain.Chain` for the integer branch, or an error marker"""
     try:
         i = conv_src.index("else if_constexpr_named(cond5")
         j = conv_src.index("to = static_cast<T_To>(from);", i)
         blk = _strip_line_comments(conv_src[i:j])
+        if not re.search(r"\bif\s+constexpr\s*\(", blk):
+            # the chain was moved into a helper: translate the helper's body instead
+            body = _inline_range_helper(blk, [conv_src] + list(other_sources))
+            if body is None:
+                raise ValueError("no if-constexpr chain in the integer branch and no helper called with `from` that contains one")
+            blk = body
         k = re.search(r"\bif\s+constexpr\s*\(", blk).start()
         # named compile-time conditions declared before the chain
         names = {}
@@ -214,7 +245,7 @@ def generate(repo):
     L.append("/-! GENERATED by gen/extract_facts.py from /repo/code/include on every run. Do not edit. -/")
     L.append("namespace Rlbox.Generated")
     L.append("open Rlbox.ConvChain")
-    chain, err = conv_chain_lean(_read(repo, "rlbox_conversion.hpp"))
+    chain, err = conv_chain_lean(_read(repo, "rlbox_conversion.hpp"), [_read(repo, "rlbox_helpers.hpp"), _read(repo, "rlbox_type_traits.hpp")])
     L.append("/-- the integer branch of `convert_type_fundamental`, TRANSLATED from rlbox_conversion.hpp: the `if constexpr` chain with")
     L.append("its conditions and the dynamic checks of every branch" + (" (TRANSLATION FAILED: " + err.replace('"', "'")[:120] + ")" if err else "") + " -/")
     L.append("def convChain : Chain :=\n  " + chain)
